@@ -1,5 +1,5 @@
 (* Corr/SerScalar.v -- case type and checker for the scalar side of the serializer (C12). *)
-From SS Require Export Model.SerScalar Model.BlockScalar Corr.Common.
+From SS Require Export Model.SerScalar Model.BlockScalar Model.FoldedPar Corr.Common.
 Local Open Scope N_scope.
 
 Inductive case :=
@@ -13,7 +13,11 @@ Inductive case :=
 | CLitEmit (ind : N) (v : str) (explicit : bool) (ch : chomp) (lines : list str)
 (* ... and what the parser reads from a literal block (explicit content indentation or none, chomping, body lines):
    the text, or None when it does not accept the document *)
-| CLitRead (explicit : option N) (ch : chomp) (lines : list str) (value : option str).
+| CLitRead (explicit : option N) (ch : chomp) (lines : list str) (value : option str)
+(* folded block scalars of one paragraph: the body lines the serializer wrote for the one-line text `v` at body
+   indentation `ind` and wrap column `w`, and the parser's reading of such a block (strip chomping) *)
+| CFoldEmit (ind w : N) (v : str) (lines : list str)
+| CFoldRead (explicit : option N) (lines : list str) (value : option str).
 
 Definition chomp_eqb (a b : chomp) : bool :=
   match a, b with Strip, Strip | Clip, Clip | Keep, Keep => true | _, _ => false end.
@@ -33,4 +37,6 @@ Definition check_case (c : case) : bool :=
     Bool.eqb (b_explicit b) ex && chomp_eqb (b_chomp b) ch && list_eqb str_eqb (b_lines b) lines
   | CLitRead ex ch lines value =>
     opt_eqb str_eqb (read_literal (option_map N.to_nat ex) ch lines) value
+  | CFoldEmit ind w v lines => list_eqb str_eqb (emit_folded_line (N.to_nat ind) (N.to_nat w) v) lines
+  | CFoldRead ex lines value => opt_eqb str_eqb (read_folded_paragraph (option_map N.to_nat ex) lines) value
   end.
